@@ -346,6 +346,7 @@ def _parse_once(c, u):
                 cls = u.classes[r["tree"]["cls"]]
                 caller = u.val(r["caller"]) if r["caller"] is not None else None
                 p.add_arguments(cls, dest=r["dest"], default=caller)
+            sp.decoy(c["cfg"])   # a parser constructed later with other settings must not matter
             return p.parse_args([])
 
         res = sp.run_outcome(run)
